@@ -853,6 +853,184 @@ def abi_top(sig):
     return "%s (%s)" % (cls(m.group(1)), ";".join(cls(p) for p in m.group(2).split(";") if p))
 
 
+# ---- regenerated tables (coq/Gen/AbiTables.v) --------------------------------------------------------
+C_BASE = {"int64_t": "CInt64", "double": "CDouble", "uint8_t": "CUInt8", "bool": "CBool", "int32_t": "CInt32", "char": "CChar", "void": "CVoid", "ddpvtable": "CVtable"}
+GO_BASE = {"i64": "LI64", "types.I64": "LI64", "types.Double": "LDouble", "i8": "LI8", "types.I8": "LI8", "types.I1": "LI1", "i32": "LI32", "types.I32": "LI32"}
+PRIMS = [("PZahl", "ddpint"), ("PKommazahl", "ddpfloat"), ("PByte", "ddpbyte"), ("PWahrheitswert", "ddpbool"), ("PBuchstabe", "ddpchar")]
+
+
+def _strip_c_comments(t):
+    t = re.sub(r"/\*.*?\*/", "", t, flags=re.S)
+    return re.sub(r"//[^\n]*", "", t)
+
+
+def translate_abi_tables():
+    """re-extracts from /repo the finite tables the model depends on: the five typedefs and the struct bodies of
+    ddptypes.h, the primitive IR types of helper.go and the struct bodies the compiler builds. Returns (text, error)."""
+    try:
+        hdr = _strip_c_comments(open(os.path.join(vlib.REPO, "lib/runtime/include/DDP/ddptypes.h")).read())
+        helper = open(os.path.join(vlib.REPO, "src/compiler/helper.go")).read()
+        irs = open(os.path.join(vlib.REPO, "src/compiler/ir_string_type.go")).read()
+        ira = open(os.path.join(vlib.REPO, "src/compiler/ir_any_type.go")).read()
+        irl = open(os.path.join(vlib.REPO, "src/compiler/list_types.go")).read()
+        irk = open(os.path.join(vlib.REPO, "src/compiler/ir_struct_type.go")).read()
+    except OSError as e:
+        return None, "source file missing: %s" % e
+    # -- header typedefs
+    tdef = {}
+    for m in re.finditer(r"typedef\s+(\w+)\s+(ddpint|ddpfloat|ddpbyte|ddpbool|ddpchar)\s*;", hdr):
+        tdef[m.group(2)] = m.group(1)
+    for _, n in PRIMS:
+        if tdef.get(n) not in C_BASE:
+            return None, "ddptypes.h: typedef of %s not understood (%r)" % (n, tdef.get(n))
+    macro = dict(re.findall(r"#define\s+(\w+)\s+(\d+)\s*$", hdr, re.M))
+
+    def cexpr(base, stars):
+        if base in tdef:
+            t = C_BASE[tdef[base]]
+        elif base in C_BASE:
+            t = C_BASE[base]
+        else:
+            return None
+        for _ in range(stars):
+            t = "CPtr %s" % t if " " not in t else "CPtr (%s)" % t
+        return t
+    structs = {}
+    for m in re.finditer(r"typedef\s+struct\s*\{(.*?)\}\s*(\w+)\s*;", hdr, re.S):
+        body, name = m.group(1), m.group(2)
+        fields, depth, cur = [], 0, ""
+        for ch in body:
+            if ch == "{":
+                depth += 1
+            if ch == "}":
+                depth -= 1
+            if ch == ";" and depth == 0:
+                fields.append(" ".join(cur.split()))
+                cur = ""
+            else:
+                cur += ch
+        structs[name] = [f for f in fields if f]
+
+    def field(f, elem=None):
+        u = re.match(r"union \{ void \*(\w+); uint8_t (\w+)\[(\w+)\]; \}$", f)
+        if u:
+            n = u.group(3)
+            n = int(macro.get(n, n)) if (macro.get(n, n)).isdigit() else -1
+            return "CAnyUnion" if n == 16 else None
+        m2 = re.match(r"(?:const )?(\w+) ?(\**) ?(\w+)$", f)
+        if not m2:
+            return None
+        if elem is not None and m2.group(1) == elem[0] and m2.group(2) == "*":
+            return "CPtr e"
+        return cexpr(m2.group(1), len(m2.group(2)))
+    out = {}
+    for name in ("ddpstring", "ddpany"):
+        if name not in structs:
+            return None, "ddptypes.h: struct %s not found" % name
+        fs = [field(f) for f in structs[name]]
+        if None in fs:
+            return None, "ddptypes.h: field of %s not understood: %s" % (name, structs[name])
+        out[name] = fs
+    shapes = set()
+    for lname, ename in (("ddpintlist", "ddpint"), ("ddpfloatlist", "ddpfloat"), ("ddpbytelist", "ddpbyte"), ("ddpboollist", "ddpbool"),
+                         ("ddpcharlist", "ddpchar"), ("ddpstringlist", "ddpstring"), ("ddpanylist", "ddpany")):
+        if lname not in structs:
+            return None, "ddptypes.h: struct %s not found" % lname
+        fs = [field(f, elem=(ename,)) for f in structs[lname]]
+        if None in fs:
+            return None, "ddptypes.h: field of %s not understood: %s" % (lname, structs[lname])
+        shapes.add(tuple(fs))
+    if len(shapes) != 1:
+        return None, "ddptypes.h: the list structs do not share one shape: %s" % sorted(shapes)
+    out["list"] = list(shapes.pop())
+    # -- compiler
+    gop = {}
+    for _, n in PRIMS:
+        m = re.search(r"^\s*%s\s*=\s*([\w.]+)\s*$" % n, helper, re.M)
+        if not m or m.group(1) not in GO_BASE:
+            return None, "helper.go: IR type of %s not understood" % n
+        gop[n] = GO_BASE[m.group(1)]
+    if not re.search(r"^\s*i8ptr\s*=\s*ptr\(i8\)\s*$", helper, re.M) or not re.search(r"^\s*i8\s*=\s*types\.I8\s*$", helper, re.M):
+        return None, "helper.go: i8ptr is no longer ptr(types.I8)"
+
+    def go_struct(text, anchor):
+        i = text.find(anchor)
+        if i < 0:
+            return None
+        j = text.find("types.NewStruct(", i)
+        if j < 0 or j - i > 200:
+            return None
+        k, depth = j + len("types.NewStruct("), 1
+        start = k
+        while k < len(text) and depth:
+            depth += text[k] == "("
+            depth -= text[k] == ")"
+            k += 1
+        body = re.sub(r"//[^\n]*", "", text[start:k - 1])
+        parts, depth, cur = [], 0, ""
+        for ch in body:
+            depth += ch == "("
+            depth -= ch == ")"
+            if ch == "," and depth == 0:
+                parts.append(cur.strip())
+                cur = ""
+            else:
+                cur += ch
+        if cur.strip():
+            parts.append(cur.strip())
+        return parts
+    arr = re.search(r"any_value_type\s*=\s*types\.NewArray\((\d+),\s*(\w+)\)", ira)
+
+    def goexpr(tok):
+        if tok == "i8ptr":
+            return "LPtr LI8"
+        if tok in gop:
+            return gop[tok]
+        if tok in GO_BASE:
+            return GO_BASE[tok]
+        if tok == "any_value_type" and arr and arr.group(2) in GO_BASE:
+            return "LArray %s %s" % (arr.group(1), GO_BASE[arr.group(2)])
+        if tok == "list.elementType.PtrType()":
+            return "LPtr e"
+        return None
+    gout = {}
+    for key, text, anchor in (("ddpstring", irs, 'NewTypeDef("ddpstring"'), ("ddpany", ira, 'NewTypeDef("ddpany"'), ("list", irl, "list.typ = c.mod.NewTypeDef(name")):
+        parts = go_struct(text, anchor)
+        if not parts:
+            return None, "compiler: construction of the %s struct type not found" % key
+        fs = [goexpr(t) for t in parts]
+        if None in fs:
+            return None, "compiler: field of the %s struct type not understood: %s" % (key, parts)
+        gout[key] = fs
+    if not re.search(r"types\.NewStruct\(\s*mapSlice\(structType\.fieldIrTypes, func\(t ddpIrType\) types\.Type \{ return t\.IrType\(\) \}\)\.\.\.", irk):
+        return None, "ir_struct_type.go: a Kombination is no longer the struct of its field types in declaration order"
+    lines = ["(* GENERATED by checks/c18.py (translate_abi_tables) from /repo on every run - do not edit.",
+             "   Sources: lib/runtime/include/DDP/ddptypes.h, src/compiler/helper.go, ir_string_type.go, ir_any_type.go, list_types.go *)",
+             "From Coq Require Import List.", "Import ListNotations.", "From DDP Require Import Lower.AbiTypes.", ""]
+    lines.append("Definition hdr_prim (p : prim) : cty :=\n  match p with " + " | ".join("%s => %s" % (c, C_BASE[tdef[n]]) for c, n in PRIMS) + " end.")
+    lines.append("Definition hdr_string_fields : list cty := [%s]." % "; ".join(out["ddpstring"]))
+    lines.append("Definition hdr_any_fields : list cty := [%s]." % "; ".join(out["ddpany"]))
+    lines.append("Definition hdr_list_fields (e : cty) : list cty := [%s]." % "; ".join(out["list"]))
+    lines.append("Definition go_prim (p : prim) : llty :=\n  match p with " + " | ".join("%s => %s" % (c, gop[n]) for c, n in PRIMS) + " end.")
+    lines.append("Definition go_string_fields : list llty := [%s]." % "; ".join(gout["ddpstring"]))
+    lines.append("Definition go_any_fields : list llty := [%s]." % "; ".join(gout["ddpany"]))
+    lines.append("Definition go_list_fields (e : llty) : list llty := [%s]." % "; ".join(gout["list"]))
+    return "\n".join(lines) + "\n", None
+
+
+def regen_abi_tables(ck):
+    text, err = translate_abi_tables()
+    if err:
+        ck.broken_obligation("translator for Gen/AbiTables.v: " + err, "")
+        return False
+    path = os.path.join(vlib.COQ, "Gen", "AbiTables.v")
+    old = open(path).read() if os.path.exists(path) else ""
+    if text != old:
+        log("[gen] Gen/AbiTables.v changed -> rebuilding dependants")
+        open(path, "w").write(text)
+    return True
+
+
 # ---- header probe -----------------------------------------------------------------------------------
 HEADER_FIELDS = {
     "ddpstring": ["str", "cap"], "ddpany": ["vtable_ptr", None], "ddpintlist": ["arr", "len", "cap"],
@@ -1227,6 +1405,7 @@ def main():
     ]
     import time
     t0 = time.time()
+    regen_abi_tables(ck)
     ck.coq()
     log("[c18] coq build + audit %.0fs" % (time.time() - t0))
     t0 = time.time()
@@ -1234,6 +1413,9 @@ def main():
     if not ok:
         ck.violation("build", "kddp/runtime do not build from the current tree", dict(log=lg[-3000:]), no_input=True)
         ck.finish()
+    # the driver of the extracted model follows the (possibly regenerated) tables
+    subprocess.run(["flock", os.path.join(vlib.COQ, ".make.lock"), "make", "--no-print-directory", "-C", os.path.join(vlib.VERIF, "extract"), "_build/c18"],
+                   capture_output=True, text=True, timeout=600)
     model = vlib.model_bin("c18")
     if not os.path.exists(model):
         ck.broken_obligation("extracted model driver extract/_build/c18 missing", "")
